@@ -79,6 +79,30 @@ def catalogue():
     for how in ("cumsum", "cumcount", "cumprod", "shift", "ffill", "bfill", "transform_sum", "apply_demean"):
         add(f"gbw-{how}", "groupby", [S("v1", "groupby_window", ["A"], by="k", col="f", how=how)])
         add(f"gbw-{how}-strkey", "groupby", [S("v0", "dropna", ["A"], subset=["s"]), S("v1", "groupby_window", ["v0"], by="s", col="i", how=how)])
+    for how in ("median", "prod", "cov", "corr"):
+        add(f"gbh-{how}", "groupby", [S("v1", "groupby_holistic", ["A"], by=["k"], cols=["f", "i"], how=how, series=False)])
+        if how in ("median", "prod"):
+            add(f"gbh-{how}-series-strkey", "groupby", [S("v0", "dropna", ["A"], subset=["s"]), S("v1", "groupby_holistic", ["v0"], by=["s"], cols=["g"], how=how, series=True)])
+    for how in ("cov", "corr"):
+        add(f"gbh-{how}-complete", "groupby", [S("v1", "groupby_holistic", ["A"], by=["k"], cols=["i", "m"], how=how, series=False)])
+    for agg in ("sum", "mean", "count"):
+        add(f"pivot-{agg}", "groupby", [S("v0", "dropna", ["A"], subset=["s"]), S("v1", "pivot_table", ["v0"], index="k", columns="s", values="i", aggfunc=agg)])
+    # row-wise families that must not care about the cut at all
+    for how in ("sum", "mean", "var", "count", "max"):
+        add(f"rowred-{how}", "local", [S("v1", "row_reduce", ["A"], cols=["f", "g", "i"], how=how)])
+    for m in ("floordiv", "mod", "pow", "rtruediv", "ge", "ne"):
+        add(f"method-{m}", "local", [S("v1", "cols", ["A"], cols=["f", "i"]), S("v2", "method_op", ["v1"], m=m, c=2, form="method")])
+    add("method-fill", "local", [S("v1", "col", ["A"], col="f"), S("v2", "method_op", ["v1"], m="add", c=3, form="method", fill_value=1)])
+    add("query-and", "local", [S("v1", "query", ["A"], q="f > 0 and k < 3")])
+    add("query-or", "local", [S("v1", "query", ["A"], q="g <= 1 or i == 6")])
+    add("eval-new", "local", [S("v1", "eval_assign", ["A"], e="ev = f * g + 1")])
+    add("apply-rows", "local", [S("v1", "apply_rows", ["A"], cols=["f", "g", "i"])])
+    add("case-when", "local", [S("v1", "col", ["A"], col="f"), S("v2", "case_when", ["v1"], c=0, v=9, cmp="gt")])
+    add("explode-s", "local", [S("v1", "explode", ["A"], col="s")])
+    add("frame-nunique", "reduction", [S("v1", "cols", ["A"], cols=["k", "s", "f"]), S("v2", "frame_nunique", ["v1"])])
+    add("sample-all-sum", "reduction", [S("v1", "sample_all", ["A"]), S("v2", "col", ["v1"], col="i"), S("v3", "reduce", ["v2"], how="sum", split_every=None)])
+    for labels in ([5, 1, 3], [0, 7], [2]):
+        add(f"loc-list-{'_'.join(map(str, labels))}", "loc", [S("v1", "loc_list", ["A"], labels=labels)])
     # windows
     for f in ("cumsum", "cummax", "cummin", "cumprod"):
         add(f"cum-series-{f}", "window", [S("v1", "col", ["A"], col="f"), S("v2", "cum", ["v1"], f=f)])
